@@ -103,3 +103,17 @@ Example C02_ex_random :
         ("A", [("id", OInt 3)]); ("K", [("id", OInt 3)]); ("A", [("id", OInt 4)]); ("K", [("id", OInt 4)]);
         ("P", [("id", OInt 2); ("r", ORef "A" 3); ("q", ORef "K" 3)])].
 Proof. vm_compute. reflexivity. Qed.
+
+(* Under a row-count target: the run equals a repetition run (C07_interp_target_fresh), hence no
+   reference it writes dangles. *)
+From SFV Require Import StopInterp.
+From SFV Require Stopping.
+From SFV.P Require Import StopInterpP.
+Theorem C02_no_dangling_target :
+  forall (r : recipe) T N fuel s j,
+    Stopping.proper_table T -> hidden T = false ->
+    run_target r (Some (Stopping.mkCrit T N)) fuel None = Ok (s, j) ->
+    forall row n U i, In row (out s) -> In (n, ORef U i) (snd row) -> hidden U = false ->
+      exists row', In row' (out s) /\ fst row' = U /\ orow_id row' = [i].
+Proof. exact no_dangling_target. Qed.
+Print Assumptions C02_no_dangling_target.
